@@ -84,6 +84,7 @@ func hxPrecisIdentity(p *precis.Profile, s string) (string, error) {
 type hxRandRec struct {
 	reads    [][]byte
 	concrete bool // distinct concrete bytes per call instead of symbolic ones
+	symPrefix int // >0: only the first symPrefix bytes of each read are symbolic
 }
 
 func (r *hxRandRec) Read(p []byte) (int, error) {
@@ -93,6 +94,12 @@ func (r *hxRandRec) Read(p []byte) (int, error) {
 		for i := range b {
 			b[i] = byte((len(r.reads)+1)*131 + i*37 + 11)
 		}
+	} else if r.symPrefix > 0 && r.symPrefix < len(p) {
+		b = make([]byte, len(p))
+		for i := range b {
+			b[i] = byte((len(r.reads)+1)*131 + i*37 + 11)
+		}
+		copy(b, svBytes("rand", r.symPrefix))
 	} else {
 		b = svBytes("rand", len(p))
 	}
